@@ -329,9 +329,50 @@ class Driver:
                 "left": len(env._queue)}
 
 
+# ------------------------------------------------------------------------------------------------
+# second tie (DESIGN 2.6): Resource._do_put/_do_get and PreemptiveResource._do_put translated from the tree under
+# test on every run (vlib/translate.py, fail closed) into coq/Gen/Extracted_resource.v; bridged to Res/Resource.v
+# by coq/Res/ResourceBridge.v; obligations in Props/C06_Bridge.v.
+
+RES_CONS = [("FxUsersAppend", ""),              # self._users.append(event)
+            ("FxUsageSince", "(t : Z)"),        # event.usage_since = t
+            ("FxSucceed", ""),                  # event.succeed()
+            ("FxUsersRemoveIfPresent", ""),     # try: self._users.remove(event.request) / except ValueError: pass
+            ("FxPickWorst", ""),                # preempt = sorted(self.users, key=lambda e: e.key)[-1]
+            ("FxEvict", ""),                    # self.users.remove(preempt)
+            ("FxInterrupt", ""),                # preempt.proc.interrupt(Preempted(by=event.proc, usage_since=preempt.usage_since, resource=self))
+            ("FxSuperDoPut", "")]               # return super()._do_put(event)
+RES_FX = [("self._users.append(event)", "FxUsersAppend", []),
+          ("event.usage_since = _1", "FxUsageSince", ["Z"]),
+          ("event.succeed()", "FxSucceed", []),
+          ("try:\n    self._users.remove(event.request)\nexcept ValueError:\n    pass", "FxUsersRemoveIfPresent", []),
+          ("preempt = sorted(self.users, key=lambda e: e.key)[-1]", "FxPickWorst", [], ("n_users",)),
+          ("self.users.remove(preempt)", "FxEvict", []),
+          ("preempt.proc.interrupt(Preempted(by=event.proc, usage_since=preempt.usage_since, resource=self))", "FxInterrupt", []),
+          ("return super()._do_put(event)", "FxSuperDoPut", [])]
+RES_READS = [("self._users", "n_users", "len", "volatile"), ("self.capacity", "capacity", "Z"),
+             ("self._env.now", "now", "Z")]                  # the C06 model's clock is integral
+PRE_READS = [("self.users", "n_users", "len", "volatile"), ("self.capacity", "capacity", "Z"),
+             ("event.preempt", "preempt", "bool"),
+             ("preempt.key > event.key", "victim_worse", "bool", "needs:FxPickWorst"),      # tuple comparison of the keys
+             ("preempt.proc.is_alive", "victim_alive", "bool", "needs:FxPickWorst")]
+
+
+def extracted_resource(repo):
+    import os
+    from vlib import translate as tr
+    path = os.path.join(repo, "onl", "sim", "resources", "resource.py")
+    specs = [tr.FnSpec(path, "Resource", "_do_put", "gen_Resource_do_put", reads=RES_READS, effects=RES_FX, ret="bool"),
+             tr.FnSpec(path, "Resource", "_do_get", "gen_Resource_do_get", reads=RES_READS, effects=RES_FX, ret="bool"),
+             tr.FnSpec(path, "PreemptiveResource", "_do_put", "gen_PreemptiveResource_do_put", reads=PRE_READS, effects=RES_FX,
+                       ret="unit")]
+    return tr.gen_module("onl/sim/resources/resource.py: Resource._do_put, _do_get; PreemptiveResource._do_put", None, "", [],
+                         "res_fx", RES_CONS, specs)
+
+
 class C06(Prop):
     id = "C06"
-    props_file = "Props/C06.v"
+    props_file = ["Props/C06.v", "Props/C06_Bridge.v"]
     coq_imports = ["From ONL Require Import Res.Resource."]
     n_quick = 500
     n_thorough = 8000
@@ -348,6 +389,10 @@ class C06(Prop):
                     "driver processes as they issue them, ProcessEvent micro-steps by inspecting env._queue[0] before every env.step(), "
                     "the state after a micro-step by a callback appended behind the resource's own callback",
                     "CPython list.sort/sorted are stable (the model's ssort is a stable insertion sort)",
+                    "vlib/translate.py (Python ast, fail closed; observation/effect tables at the top of the plugin class in props/c06.py) "
+                    "regenerates coq/Gen/Extracted_resource.v from Resource._do_put/_do_get and PreemptiveResource._do_put of the tree "
+                    "under test before every build; the C06_gen_* theorems (Props/C06_Bridge.v) bridge them to the hand-written model; "
+                    "the tuple comparison `preempt.key > event.key` is an observation (a boolean parameter), not translated",
                     "that the kernel processes every triggered event of the resource before the clock moves is C01's statement; here "
                     "it is the admissibility of AAdvance, checked on every observed execution",
                     "the model is one resource: the `resource` field of Preempted and the delivery of the Interruption into the "
@@ -358,6 +403,13 @@ class C06(Prop):
                    "an ended process issues no further operations (it may end holding a slot or queueing)",
                    "capacity >= 1 (the constructor rejects anything else)"]
     partial = []
+
+    # ---- second tie: regenerate the translated bodies before the Coq build (fail closed) --------------
+    def pre_build(self):
+        import os
+        from vlib import framework as fw
+        from vlib import translate as tr
+        tr.write_if_changed(os.path.join(fw.COQ, "Gen", "Extracted_resource.v"), extracted_resource(fw.REPO))
 
     # ---- generation --------------------------------------------------------------------------------
     def gen_case(self, rng, tier):
